@@ -510,7 +510,7 @@ def explore(seed=1, budget_ms=12000, replay_ops=None):
         lock = os.path.join(REPO, "Cargo.lock")
         out = {"runs": [], "violations": [], "hang": False}
         t0 = time.time()
-        for prof, share in (("release", 1.0), ("nodebug", 0.5)):
+        for prof, share in (("release", 1.0), ("nodebug", 1.0)):
             p = sh(["cargo", "build", "--offline", "--profile", prof], cwd=scratch, check=False, timeout=900)
             if p.returncode != 0:
                 raise Undecided("the witness explorer does not build against /repo: " + p.stderr[-1500:])
